@@ -218,7 +218,10 @@ func (e *kvElection) handleHeartbeatFailure(err error) {
 		)...,
 	)
 
-	e.becomeFollower()
+	if !e.becomeFollower() {
+		// another detector already ended this term and ran the callback
+		return
+	}
 
 	e.mu.RLock()
 	onDemote := e.onDemote
@@ -243,7 +246,10 @@ func (e *kvElection) handleHealthCheckFailure() {
 		)...,
 	)
 
-	e.becomeFollower()
+	if !e.becomeFollower() {
+		// another detector already ended this term and ran the callback
+		return
+	}
 
 	e.mu.RLock()
 	onDemote := e.onDemote
